@@ -156,6 +156,14 @@ func execC07(x *Ctx, sc *wire.Scenario) *wire.Result {
 	// line identity: -1 = the line being typed, i = history entry i from newest
 	ident := -1
 	seen := map[int][]string{-1: {""}}
+	// depth[id] bounds the undo stack of a line: its initial content plus one state per
+	// command (other than undo/redo) that changed it.
+	depth := map[int]int{-1: 1}
+	// per line (each line has its own undo history): the buffer the last effective undo
+	// produced, whether something was undone, and whether the line was edited since
+	afterUndo := map[int]string{}
+	undoneSomething := map[int]bool{}
+	editedSinceUndo := map[int]bool{}
 	initial := func(id int) string {
 		if id < 0 {
 			return ""
@@ -176,14 +184,12 @@ func execC07(x *Ctx, sc *wire.Scenario) *wire.Result {
 		redos        int
 		phase        int // 1 = in undos, 2 = in redos
 		redosAtStart int
-		broken       bool
+		saturated    bool // an undo of the block found nothing left to undo
 	}
 	var b blk
 	walked := false
 	redosBefore := 0
 	consecutiveUndos := 0
-	editedSinceUndo := false
-	undoneSomething := false
 	identKnown := true
 	for i, t := range sc.Script {
 		before := waitAfter(out, i)
@@ -209,6 +215,7 @@ func execC07(x *Ctx, sc *wire.Scenario) *wire.Result {
 			}
 			if _, ok := seen[ident]; !ok {
 				seen[ident] = []string{initial(ident)}
+				depth[ident] = 1
 			}
 			if !member(ident, after.Line) {
 				// an edited history line is re-shown edited; the identity model may also be off: stop judging identities
@@ -231,9 +238,9 @@ func execC07(x *Ctx, sc *wire.Scenario) *wire.Result {
 					fmt.Sprintf("undo turned %q into %q, which was never shown before for this line (earlier states: %q)", before.Line, after.Line, seen[ident]))
 			}
 			consecutiveUndos++
-			if identKnown && consecutiveUndos > len(seen[ident])+1 && after.Line != initial(ident) {
+			if identKnown && consecutiveUndos > depth[ident]+1 && after.Line != initial(ident) {
 				return violation(res, "MISMATCH", "C07.undo-reaches-initial", "undo-never-reaches-initial",
-					fmt.Sprintf("%d consecutive undos over %d recorded states end at %q, not at the line's initial content %q", consecutiveUndos, len(seen[ident]), after.Line, initial(ident)))
+					fmt.Sprintf("%d consecutive undos over %d states of this line end at %q, not at the line's initial content %q", consecutiveUndos, depth[ident], after.Line, initial(ident)))
 			}
 			if b.phase == 0 {
 				b = blk{start: before.Line, phase: 1, redosAtStart: redosBefore}
@@ -244,15 +251,26 @@ func execC07(x *Ctx, sc *wire.Scenario) *wire.Result {
 				b = blk{start: before.Line, phase: 1, undos: 1, redosAtStart: redosBefore}
 			}
 			if after.Line != before.Line {
-				undoneSomething = true
-				editedSinceUndo = false
+				undoneSomething[ident] = true
+				editedSinceUndo[ident] = false
+				afterUndo[ident] = after.Line
+			} else {
+				// Nothing was left to undo: the n redos that follow legitimately go further
+				// forward than the block's start when a redo branch exists (any linear undo
+				// does), so "n undos then n redos" is only judged over effective undos.
+				b.saturated = true
 			}
 		} else {
 			consecutiveUndos = 0
 		}
 		if isRedo {
 			res.Counters["checked:redo"]++
-			if editedSinceUndo && undoneSomething && after.Line != before.Line {
+			if editedSinceUndo[ident] && undoneSomething[ident] && before.Line == afterUndo[ident] {
+				// edits that cancel out (insertions of one vi insert session, then deleted again)
+				// leave the very state the undo produced: a snapshot undo cannot tell, not judged
+				res.Counters["skipped:net_zero_edit_before_redo"]++
+				editedSinceUndo[ident] = false
+			} else if identKnown && editedSinceUndo[ident] && undoneSomething[ident] && after.Line != before.Line {
 				return violation(res, "MISMATCH", "C07.edit-discards-redo-branch", "redo-after-edit",
 					fmt.Sprintf("after undo, a new edit and then redo, redo changed the buffer from %q to %q (the redo branch should be gone)", before.Line, after.Line))
 			}
@@ -261,7 +279,9 @@ func execC07(x *Ctx, sc *wire.Scenario) *wire.Result {
 				b.redos++
 				if b.redos == b.undos {
 					res.Counters["checked:undo_redo_block"]++
-					if after.Line != b.start {
+					if b.saturated {
+						res.Counters["skipped:saturated_undo_block"]++
+					} else if after.Line != b.start {
 						cls := "undo-n-redo-n"
 						if b.undos == 1 {
 							cls += ":n=1"
@@ -289,11 +309,15 @@ func execC07(x *Ctx, sc *wire.Scenario) *wire.Result {
 		}
 		if isRedo {
 			redosBefore++
+			if after.Line != before.Line && !editedSinceUndo[ident] {
+				afterUndo[ident] = after.Line // the state now shown, out of the undo history
+			}
 		}
 		if !isUndo && !isRedo {
 			b = blk{}
 			if after.Line != before.Line {
-				editedSinceUndo = true
+				editedSinceUndo[ident] = true
+				depth[ident]++
 			}
 		}
 		if !member(ident, after.Line) {
